@@ -32,6 +32,28 @@ impl Flags {
         }
         self.bits & o.bits == o.bits
     }
+    // bitflags 2.x: insert = |=, remove = &= !, set(o, v) = if v { insert(o) } else { remove(o) }; bit by bit:
+    // a bit of `o` takes the given value, every other bit stays
+    pub fn insert(&mut self, o: Flags)
+        ensures final(self).bits == old(self).bits | o.bits, forall|i: u8| 0 <= i < 8 ==> #[trigger] final(self).has(i) == (old(self).has(i) || o.has(i))
+    { proof { lemma_or_bits(self.bits, o.bits); } self.bits = self.bits | o.bits; }
+    pub fn remove(&mut self, o: Flags)
+        ensures final(self).bits == old(self).bits & !o.bits, forall|i: u8| 0 <= i < 8 ==> #[trigger] final(self).has(i) == (old(self).has(i) && !o.has(i))
+    { proof { lemma_andnot_bits(self.bits, o.bits); } self.bits = self.bits & !o.bits; }
+    pub fn set(&mut self, o: Flags, value: bool)
+        ensures final(self).bits == (if value { old(self).bits | o.bits } else { old(self).bits & !o.bits }),
+                forall|i: u8| 0 <= i < 8 ==> #[trigger] final(self).has(i) == (if o.has(i) { value } else { old(self).has(i) }),
+    {
+        proof { lemma_or_bits(self.bits, o.bits); lemma_andnot_bits(self.bits, o.bits); }
+        if value { self.bits = self.bits | o.bits; } else { self.bits = self.bits & !o.bits; }
+    }
+}
+pub proof fn lemma_andnot_bits(a: u8, b: u8)
+    ensures forall|i: u8| 0 <= i < 8 ==> #[trigger] bit(a & !b, i) == (bit(a, i) && !bit(b, i))
+{
+    assert forall|i: u8| 0 <= i < 8 implies #[trigger] bit(a & !b, i) == (bit(a, i) && !bit(b, i)) by {
+        assert(((a & !b) >> i) & 1 == 1 <==> ((a >> i) & 1 == 1 && !((b >> i) & 1 == 1))) by(bit_vector);
+    }
 }
 impl vstd::std_specs::ops::BitOrAssignSpecImpl for Flags {
     open spec fn obeys_bitor_assign_spec() -> bool { true }
